@@ -674,8 +674,16 @@ def false_only_on_failure(ctx, prog, rule="R-FALSEONLY"):
         if not falses:
             continue
         n += 1
-        allocs = [i for i, st in fn.calls() if st["callee"]["q"].split("::")[-1] in
-                  ("allocExtension", "saveString", "createString", "allocVariant", "resizeString", "save")]
+        ALLOC_NAMES = ("allocExtension", "saveString", "createString", "allocVariant", "resizeString", "save", "allocSlot")
+        allocs = []
+        for i, st in fn.calls():
+            if st["callee"]["q"].split("::")[-1] in ALLOC_NAMES:
+                allocs.append(i)
+                continue
+            # a helper that allocates (e.g. toExtension): anything from which an allocating routine is reachable
+            ck = st["callee"]["key"]
+            if ck in prog.fns and any(prog.fns[k_].name in ALLOC_NAMES for k_ in prog.reachable([ck]) if k_ in prog.fns):
+                allocs.append(i)
         bad = None
         for r in falses:
             ok = False
